@@ -29,7 +29,9 @@ PROPS = ["wrap_ops_eq_bitvec", "wrap_ops_in_range", "shift_ops_eq_bitvec", "divf
          "primitive_order_s64_u64_is_by_type", "string_operand_scanned", "string_digits_exact_or_rejected", "string_operands_every_entry",
          "string_operands_handwritten", "bitwise32_range_checks", "bitwise32_eq_bitvec", "num_div_is_floor_of_quotient",
          "num_mod_zero_is_dividend", "num_mod_floor_convention", "num_rem_is_fmod", "vm_number_handlers",
-         "int_to_double_exact", "to_number_round_trip", "to_bytes_round_trip"]
+         "int_to_double_exact", "to_number_round_trip", "to_bytes_round_trip",
+         "rounded_integer_quotient_has_same_floor", "num_ops_exact_on_integers", "mod_side_condition", "num_mod_int_rounds_witness",
+         "number_ops_agree_with_s64_ops", "u64_ops_agree_on_nonneg"]
 # configuration-generic lemmas (audited separately when Props/C14 does not build, to show what still holds)
 LEMMAS = ["opMethod_add", "opMethod_sub", "opMethod_mul", "opMethod_and", "opMethod_or", "opMethod_xor", "notMethod_bitvec", "opMethod_shl", "opMethod_sar",
           "divf_eq_floor_div", "mod_eq_floor_mod", "trunc_div_rem_correct", "mod_zero_is_dividend", "div_zero_errors", "no_ub_iff_guarded", "no_ub_partial",
@@ -203,6 +205,13 @@ def run(ctx):
     targeted = corpus_lines() + witness_lines(flags)
     n_ieee = 105000 if quick else 1500000     # plain-number pairs for the IEEE instance (>= 10^5 on every run)
     lines = targeted + oracle.gen_lines(ctx.rng, per_combo, n_random, n_ieee)
+    # integer family: |x|, |y| <= 2^53, every type mix must give the same integer (theorems num_ops_exact_on_integers /
+    # number_ops_agree_with_s64_ops); judged by `oracle.int_family_spec` (Python ints only)
+    fam = oracle.int_family_lines(ctx.rng, 3000 if quick else 60000)
+    fam_info = {}
+    for l, op, x, y, has_u in fam:
+        fam_info.setdefault(l, (op, x, y, has_u))
+    lines += [l for l, _, _, _, _ in fam]
     seen = set()
     lines = [l for l in lines if not (l in seen or seen.add(l))]
     ctx.say("generated %d distinct cases (%d targeted)" % (len(lines), len(targeted)))
@@ -269,8 +278,30 @@ def run(ctx):
             direct.append(i)
         if m is not None and m != "ub" and a != m:
             diffs.append(i)
+    # integer family: theorem-level oracle (exact integers), on the implementation's outputs
+    fam_claims = 0
+    fam_bad = []
+    for i, l in enumerate(lines):
+        info = fam_info.get(l)
+        if info is None or impl[i] is None:
+            continue
+        op, x, y, has_u = info
+        if has_u and (x < 0 or y < 0):
+            continue
+        want = oracle.int_family_spec(op, x, y, has_u)
+        if want is None:
+            continue
+        fam_claims += 1
+        if oracle.int_family_value(impl[i]) != want:
+            fam_bad.append((i, want))
     # (E) report: property failures on the implementation first
     reported = set()
+    for i, want in fam_bad[:1]:
+        l = lines[i]
+        ctx.violation("inconsistent:" + l.split()[0], {"kind": "wrong-result", "input": l, "janet": janet_expr(l), "expected_integer": want, "observed": impl[i],
+                                                         "model": model[i] if model else None, "theorem": "num_ops_exact_on_integers / number_ops_agree_with_s64_ops"},
+                      what="integer operands of magnitude <= 2^53: `%s` must be the integer %d in every type mix, observed %s" % (janet_expr(l), want, impl[i]))
+        reported.add("wrong-result:" + l.split()[0])
     for i in sorted(direct, key=lambda i: (lines[i].count("t:"), len(lines[i]), lines[i])):
         l = lines[i]
         t = l.split()
@@ -316,7 +347,9 @@ def run(ctx):
                 "judged by the Python oracle where the property makes a claim",
         "samples": lines[len(targeted):len(targeted) + 3] + lines[-3:],
         "correspondence_lines": len(lines), "correspondence_diffs": len(diffs),
-        "oracle_claims": n_claim, "oracle_failures": len(direct), "model_ub_lines": len(ub_lines), "crashes": len(crashes),
+        "oracle_claims": n_claim, "oracle_failures": len(direct),
+        "integer_family": {"lines": len(fam_info), "pairs": len(fam) and len(set((o, x, y) for _, o, x, y, _ in fam)), "claims": fam_claims, "failures": len(fam_bad),
+                           "rule": "|x|,|y| <= 2^53; number/s64/u64 mixes of + - * div mod %; expected = exact integer (Python ints), claim where the theorems apply"}, "model_ub_lines": len(ub_lines), "crashes": len(crashes),
         "result_kinds_hit": dict(sorted(kinds.items())), "operator_mix": dict(sorted(ops.items())), "type_mix": dict(sorted(mixes.items())),
         "gen_flags": {k: flags.get(k) for k in ("divfGuard", "divfiGuard", "modGuard", "modiGuard", "guard_DIVMETHOD_SIGNED", "guard_DIVMETHODINVERT_SIGNED",
                                                 "cmpS64Upper", "cmpS64Lower", "cmpU64Upper")},
